@@ -30,6 +30,9 @@ type FileOp struct {
 	Kind    string `json:"kind"` // file dir symlink remove
 	Content string `json:"content,omitempty"`
 	Target  string `json:"target,omitempty"` // symlink target
+	// KeepMeta: rewrite the content but keep the file's mtime (cp -p, rsync -t,
+	// an editor within one clock tick): metadata is no proxy for content
+	KeepMeta bool `json:"keep_meta,omitempty"`
 }
 
 // DiskOp: damage or leftovers applied to .ergo between commands.
@@ -52,7 +55,18 @@ type BatchSpec struct {
 	Faults    []Fault `json:"faults,omitempty"`
 }
 
+// IOFault: an I/O error addressed by kind of call: the Nth read/write/open of
+// a log or temp file inside one command returns Errno (after Short bytes, for
+// writes: a short write followed by the error on the rest).
+type IOFault struct {
+	Call  string `json:"call"` // write | read | openat
+	Nth   int    `json:"nth"`
+	Short int    `json:"short,omitempty"`
+	Errno int    `json:"errno"`
+}
+
 type Step struct {
+	IO      *IOFault   `json:"io,omitempty"`
 	Cmd     *Cmd       `json:"cmd,omitempty"`
 	Batch   *BatchSpec `json:"batch,omitempty"`
 	File    *FileOp    `json:"file,omitempty"`
